@@ -537,3 +537,15 @@ Proof.
     rewrite (tcells_eq blk blk' L) by (intros j Hj; apply E; unfold L_hist_u; lia).
     apply (TF m); [exact Ht|]. apply K. intro X. apply (Hfp bl X). left. reflexivity.
 Qed.
+Lemma set_hu_same lb : set_hu lb (hist_u lb) = lb.
+Proof. destruct lb; reflexivity. Qed.
+(* only mark cells of the struct changed *)
+Lemma urep_marks T (m : mem) bl (blk blk' : block) bh hblk lb : T_frame T -> urep T m bl blk bh hblk lb -> mk_eq blk blk' ->
+  urep T (upd m bl blk') bl blk' bh hblk lb.
+Proof.
+  intros TF R (L & I & E). rewrite <- (set_hu_same lb). pose proof R as [Hb L0 I0 Cn Rn Cq Ch Csz Cnn Cu Cz Cl Rg Hh Hl He Ho Ht].
+  apply (urep_struct T m bl blk blk' bh hblk lb (hist_u lb) TF R); try assumption; try congruence.
+  - intros j Hj _. apply E. exact Hj.
+  - rewrite E by (unfold L_hist_u; lia). exact Cu.
+  - lia.
+Qed.
